@@ -438,6 +438,24 @@ def other_generators(run):
                               f"passlib.pwd accepted an alphabet with duplicate symbols ({label}, attempt {attempt + 1}): symbols are no longer equally likely while the reported entropy assumes they are",
                               dict(label=label, attempt=attempt + 1, output=repr(out)))
                 break
+        # ... including after the same symbols were offered (and accepted) without duplicates: a validation cache keyed on
+        # the *set* of symbols would wave the skewed alphabet through (sequence: clean offer, then the same symbols with repeats)
+        for kind, base in (("chars", "qzx7"), ("chars", "Kp3_vW"), ("words", ["alpha", "beta", "gamma", "delta"])):
+            mk = (lambda a: P.WordGenerator(chars=a, length=6)) if kind == "chars" else (lambda a: P.PhraseGenerator(words=a, length=3))
+            mk(base)
+            mk(base[::-1])
+            for vi, dup in enumerate([base + base[:1] * 4, base[::-1] + base[:1], base * 2, base[:1] + base]):
+                for cont in (((lambda a: a),) if kind == "chars" else (tuple, list)):
+                    arg = cont(dup)
+                    try:
+                        g = mk(arg)
+                    except ValueError:
+                        run.count("duplicate_alphabet_refused_after_clean_offer")
+                        run.case(("dup-after-clean", kind, vi, type(arg).__name__), None)
+                        continue
+                    run.violation(f"C06|pwd|duplicate-alphabet-accepted|after-clean-offer|{kind}",
+                                  f"passlib.pwd accepted {kind}={arg!r} after the same symbols had been offered without repeats: it reports {g.symbol_count} equally likely symbols",
+                                  dict(kind=kind, first=repr(base), then=repr(arg), symbol_count=g.symbol_count))
         # django_disabled suffix
         import passlib.hash as PH
         sfx = [PH.django_disabled.hash("x")[1:] for _ in range(3000)]
@@ -539,6 +557,7 @@ def body(run):
     run.require("bit_pairs_tested", 100000)
     run.require("pinned_salt_refused", 8)
     run.require("genword", 50)
+    run.require("duplicate_alphabet_refused_after_clean_offer", 16)
     run.assumptions += ["uniformity is judged relative to a uniform random source (the source is replaced by an enumerating or a seeded Mersenne source)",
                         f"statistical monitors fire beyond {Z} sigma only"]
 
